@@ -39,8 +39,10 @@ def gen_evolve1d(rng, tier):
                 mode = g.VALID[call['memo']]
                 yield {'kind': 'evolve1d/%s/%s' % (c['kind'].split('/')[0], mode), 'dim': 'evolve1d', 'call': call}
     for c in g.gen_options(rng, tier):
-        if c['kind'] in ('option/join', 'option/bytes'):
-            yield {'kind': 'evolve1d/option/recursive', 'dim': 'evolve1d', 'call': c['calls'][0]}
+        form = c['kind'].split('/')[1]
+        if form in ('join', 'bytes', 'np_str', 'str_subclass', 'np_true', 'np_true_lit', 'np_false'):
+            # values equal to 'recursive' / True / False that are not the interned literal or the bool singletons
+            yield {'kind': 'evolve1d/option/%s' % g.VALID[form], 'dim': 'evolve1d', 'call': c['calls'][0]}
     # "within one evolve call": the observed call is preceded, in the same process and with the SAME rule object
     # (one Logged1 wrapper; the observed call's slice of its log is what is compared), by the earlier calls of a
     # C03 shared-object sequence (same or other radius / dtype with aliasing bytes / memoize mode, identical or
